@@ -45,24 +45,9 @@ func main() {
 // were lost) is repaired: the generator writes and addresses such elements and fields again (its probe is the
 // regression harness/corpus/extra/global-composites.go)
 
-func init() {
-	findings = append(findings, finding{
-		sig: "escaping-func-variable-aliased", off: "func-var-reassign",
-		probe: map[string]string{"main.go": `package main
-
-import "fmt"
-
-func main() {
-	fn := func() int { return 1 }
-	h := func() { _ = fn }
-	h()
-	k := fn
-	fn = func() int { return 2 }
-	fmt.Println(k(), fn())
-}
-`},
-	})
-}
+// the finding escaping-func-variable-aliased (a copy of a captured or package-level function variable followed
+// later assignments) is repaired: the generator assigns to function variables again (regression
+// harness/corpus/extra/func-variable-copies.go)
 
 // knownFinding returns the signature of a recorded finding when the outcomes
 // differ exactly by that deviation ("" otherwise).
